@@ -31,6 +31,7 @@ from ..core import LOG
 from ..workload import Ctx, drive
 
 _uid = itertools.count(1000)
+SHARED_OPERAND: Any = None
 _uid_lock = threading.Lock()
 DEFAULT = Config.instance()
 FIELDS = [f.name for f in fields(DEFAULT)]
@@ -168,7 +169,11 @@ def run_history(rng: Any, mon: str, max_depth: int, length: int, apply_budget: l
             compare(mon, 'read', stack[-1], trace)
         elif ev == 'create':
             trace.append('CREATE')
-            inv = InverseOperator(tiny_operator(composite=bool(rng.integers(2))))
+            if rng.integers(3) == 0:
+                inv = SHARED_OPERAND.I            # the same operand object inverted again and again through the property
+                LOG.count('C19.create', 'shared-operand.I')
+            else:
+                inv = InverseOperator(tiny_operator(composite=bool(rng.integers(2))))
             LOG.evaluated(mon)
             top = stack[-1]
             for f in FIELDS:
@@ -501,6 +506,11 @@ def case_contexts(rng: Any, ctx: Ctx, index: int) -> None:
 
 
 def run(ctx: Ctx) -> None:
+    global SHARED_OPERAND
+    from furax._base.dense import DenseBlockDiagonalOperator
+    # same map as tiny_operator() but of a class without closed-form inverse: .I builds a solver-based inverse
+    SHARED_OPERAND = DenseBlockDiagonalOperator(jnp.asarray([[2.0, 0.0], [0.0, 4.0]], dtype=jnp.float32), jax.ShapeDtypeStruct((2,), jnp.float32), 'ij,j->i')
+    assert type(SHARED_OPERAND.I).__name__ == 'InverseOperator'
     drive(ctx, case_history, 1600, 16000, stream=0, part='history')
     drive(ctx, case_schedule2, 70, 70, stream=1, part='schedules')
     if ctx.thorough or ctx.part == 'schedules':
